@@ -44,7 +44,7 @@ For EACH change k = 1..{N}:
      pkg/parse, pkg/sysl): go test -vet=off -count=1 ./pkg/<...>/... ./cmd/...   — they must pass exactly as they do
      without your change (a few tests need the network and fail in this sandbox with or without your change — ignore
      those, but list them). Then the whole suite once: go test -vet=off -count=1 ./... 2>&1 | grep -v '^ok\\|no test files'
-     and compare with the same command on a pristine checkout (git stash; run; git stash pop).
+     and compare with the same command on a pristine checkout. Do NOT use `git stash` for that (the stash is shared by all worktrees of /repo and other people work in parallel): make a second pristine worktree (git -C /repo worktree add --detach /tmp/mut_{PID}_{K}_pristine HEAD), run there, and remove it afterwards.
   4. Write a demonstration: a Go test file (e.g. pkg/<pkg>/mutdemo_test.go, package-internal or external as needed) or a
      small Go program under cmd/mutdemo/ that exercises the public behaviour the property talks about and FAILS (test
      failure / non-zero exit) with your change and PASSES without it. It must not depend on timing luck: if it needs a
